@@ -16,9 +16,9 @@ if [ -z "${MUTANT_SKIP_TESTS:-}" ]; then
 fi
 VERIF_REPO="$S/repo" VERIF_NO_EVIDENCE=1 "$VERIF/check" "$ID" "$TIER" >"$S/out.log" 2>"$S/err.log"
 rc=$?
-grep -m3 -A4 '^VIOLATION' "$S/out.log"
+grep -a -m3 -A4 '^VIOLATION' "$S/out.log"
 tail -1 "$S/out.log"
-if [ $rc -eq 1 ] && grep -q "^VIOLATION property=$ID " "$S/out.log"; then
+if [ $rc -eq 1 ] && grep -a -q "^VIOLATION property=$ID " "$S/out.log"; then
   echo "MUTANT $(basename "$1"): CAUGHT by $ID $TIER"
   exit 0
 fi
